@@ -255,3 +255,227 @@ Proof.
   - constructor; [split; [reflexivity | left; split; reflexivity] | constructor; [split; [reflexivity | right; exists 2%nat; split; reflexivity] | constructor]].
   - constructor; [split; [reflexivity | left; split; reflexivity] | constructor].
 Qed.
+
+(* =====================================================================================================================
+   DEEPENING (c03x): every metadata call shape of the dict-based backends, and the cross-library round trips as one theorem.
+   ===================================================================================================================== *)
+From Geff Require Import C10Lemmas BackendsMd BackendsMdLemmas C03Cross.
+From Geff Require Corr.C03.
+
+(* ---- NxBackend.write / RxBackend.write with a caller GeffMetadata and / or axis_names + axis_units / axis_types / axis_scales /
+   scaled_units / axis_offset (BackendsMd.v: create_or_update_metadata, update_metadata_axes) ----
+   args_dom g mdc axes: the axis names given are distinct; the caller's property entries name written properties only; every axis
+   of the written geff (eff_axes: those of the lists when axis names are given -- they REPLACE the caller's -- else the caller's)
+   names a node property present on EVERY node whose values are Python floats or Python ints of the int64 range with |z| < 2^53
+   (axis_col).  Then, for every graph of the value domain of C03_nx_roundtrip: the write succeeds, the store validates, the graph
+   read back is the graph written (same_graph: the axis properties are read back like every other property), and the metadata
+   read back (md_back) has
+     * `directed` of the GRAPH, whatever the caller's metadata says,
+     * every data-independent caller field (one token), exactly one property entry per written property,
+     * one axis per effective axis, in order, with the same name and the same token (type, unit, scale, scaled unit, offset) and
+       min / max = the smallest / largest value of the column (axis_stored), whatever range the caller's axis carried. *)
+Theorem C03_nx_roundtrip_md : forall d g mdc axes mdtok, dom_values d g -> args_dom g mdc axes ->
+  exists post mg cg,
+    run (api_write KObj (nx_write_md KObj d g mdc axes mdtok)) None = (Some post, Ok tt) /\
+    validate_structure KObj (Some post) = Ok tt /\
+    read_to_memory KObj (Some post) true None None = Ok mg /\
+    nx_construct mg = Ok cg /\
+    same_graph cv_of_py d g cg /\
+    md_back g d mdc axes mdtok (g_md mg).
+Proof. intros d g mdc axes mdtok H. apply nx_roundtrip_md. apply dom_values_dicts. exact H. Qed.
+Print Assumptions C03_nx_roundtrip_md.
+
+Theorem C03_rx_roundtrip_md : forall d g idmap g' mdc axes mdtok,
+  rx_target idmap g = Ok g' -> dom_values d g' -> args_dom g' mdc axes ->
+  exists post mg r cg,
+    run (api_write KObj (rx_write_md KObj d g idmap mdc axes mdtok)) None = (Some post, Ok tt) /\
+    validate_structure KObj (Some post) = Ok tt /\
+    read_to_memory KObj (Some post) true None None = Ok mg /\
+    rx_construct mg = Ok r /\ canon_rx r = Some cg /\
+    same_graph cv_of_py d g' cg /\
+    md_back g' d mdc axes mdtok (g_md mg).
+Proof. intros d g idmap g' mdc axes mdtok Ht H. apply rx_roundtrip_md; [exact Ht | apply dom_values_dicts; exact H]. Qed.
+Print Assumptions C03_rx_roundtrip_md.
+
+(* the stored axis in words: name and token kept; min (max) is a value of the column that no value of the column lies below (above),
+   as the float the metadata holds (integers times 2^10 in the payload encoding) *)
+Theorem C03_axis_stored : forall data ax ax', axis_stored data ax ax' ->
+  ax_name ax' = ax_name ax /\ ax_tok ax' = ax_tok ax /\
+  exists d lo hi, col_dt (column data (ax_name ax)) = Some d /\
+    let vs := map scalar_payload (somes (column data (ax_name ax))) in
+    In lo vs /\ (forall v, In v vs -> (lo <= v)%Z) /\ In hi vs /\ (forall v, In v vs -> (v <= hi)%Z) /\
+    ax_min ax' = Some (lo * (if is_float d then 1 else fscale))%Z /\ ax_max ax' = Some (hi * (if is_float d then 1 else fscale))%Z.
+Proof. intros data ax ax' [Hn [Ht [d [lo [hi [Hd [[Hlo1 Hlo2] [[Hhi1 Hhi2] [Hmin Hmax]]]]]]]]]. split; [exact Hn|]. split; [exact Ht|].
+  exists d, lo, hi. cbv zeta. auto 10. Qed.
+Print Assumptions C03_axis_stored.
+
+(* the new writer model restricted to metadata=None and bare axis names is the one of C03_nx_roundtrip / the correspondence *)
+Theorem C03_md_model_extends : forall k d g idmap axes mdtok axtok,
+  nx_write_md k d g None (bare_axes axes axtok) mdtok = nx_write k d g axes mdtok axtok /\
+  rx_write_md k d g idmap None (bare_axes axes axtok) mdtok = rx_write k d g idmap axes mdtok axtok.
+Proof. intros. split; [apply nx_write_md_bare | apply rx_write_md_bare]. Qed.
+Print Assumptions C03_md_model_extends.
+
+(* the premises of args_dom are needed: an axis property lacking on one node, a caller entry for a property that is not written,
+   duplicate axis names -- each write is refused with ValueError and leaves no geff (the first two are rejected by the
+   structural validation of the written result and removed again: an empty root group is left; the third fails before any mutation) *)
+Definition ex_axis_gap : dgraph := mkdg [(1%Z, [("x", PFloat 1024)]); (2%Z, [])] [].
+Definition ex_md_ghost : smeta := mkmd false None [("ghost", mkpm DI8 false None None None)] [] 0%Z.
+Theorem C03_md_premises_needed :
+  run (api_write KObj (nx_write_md KObj true ex_axis_gap None (Some [("x", 0%Z)]) 0)) None = (Some (ZG [] []), Err ValueError) /\
+  run (api_write KObj (nx_write_md KObj true ex_big (Some ex_md_ghost) None 0)) None = (Some (ZG [] []), Err ValueError) /\
+  run (api_write KObj (nx_write_md KObj true ex_big None (Some [("p", 0%Z); ("p", 1%Z)]) 0)) None = (None, Err ValueError).
+Proof. vm_compute. repeat split. Qed.
+Print Assumptions C03_md_premises_needed.
+
+(* ---- cross-library round trips: ONE statement for the nine ordered pairs (A, B) of {networkx, rustworkx, spatial-graph} ----
+   cross s r = geff.write of the graph s of library A onto a fresh store, geff.read(backend=B), B's GraphAdapter view
+   (rustworkx through graph.attrs["to_rx_id_map"], spatial-graph through the axis names of the metadata read back).
+   src_dom s (the domain of the WRITING library):
+     networkx   dom_values + args_dom (C03_nx_roundtrip_md);   rustworkx   the same on rx_target idmap g (node_indices / node_id_dict);
+     spatial-graph   sgc_dom (C03_sg_roundtrip).
+   rdr_dom s r (what the READING library adds; nothing for networkx / rustworkx): for spatial-graph as reader
+     of a dict graph (sg_dicts_dom): at least one axis -- hence a node --, distinct axis names, the axis columns of ONE numpy dtype,
+       every node and edge property present on every element with Python ints of one of the ranges int64 / [2^63, 2^64) or floats
+       (sg_col), no node property called like position_attr;
+     of a spatial graph: position_attr is not the name of a stored property (sg_nnames).
+   src_canon s cg (the canonical graph of the input): same_graph for dict graphs (ids, edges, directedness, exactly the properties
+   each element had, values and kinds); for a spatial graph its own adapter view over the stored property names. *)
+Theorem C03_cross : forall s r mdtok axtok, src_dom s -> rdr_dom s r ->
+  exists cg, cross s r mdtok axtok = Ok cg /\ src_canon s cg.
+Proof. exact cross_roundtrip. Qed.
+Print Assumptions C03_cross.
+
+(* the reader side alone: the three adapter views of ONE written geff are the same canonical graph *)
+Theorem C03_cross_views : forall mg ids es cg r,
+  wf_geff mg ids es -> props_fit (length ids) (g_nprops mg) -> props_fit (length es) (g_eprops mg) -> canon_geff mg = Ok cg ->
+  match r with RdrSg pos => exists dt, sg_dom mg pos ids es (md_axis_names (g_md mg)) dt | _ => True end ->
+  rdr_view r mg = Ok cg.
+Proof. exact rdr_view_agree. Qed.
+Print Assumptions C03_cross_views.
+
+(* ---- non-vacuity ---- *)
+(* an UNDIRECTED networkx graph with float axis x and int axis t on both nodes, a bool on one; the caller's metadata says directed,
+   carries a stale range on its own axis "x" and a unit on the entry of "x"; axis_names = [t, x] with tokens 9 / 4 replace it *)
+Definition ex_mdg : dgraph :=
+  mkdg [(1%Z, [("x", PFloat 1024); ("t", PInt 3); ("b", PBool true)]); (9223372036854775813%Z, [("x", PFloat (-2560)); ("t", PInt 7)])]
+       [((9223372036854775813%Z, 1%Z), [("w", PFloat 1536)])].
+Definition ex_mdc : smeta :=
+  mkmd true (Some [mkax "x" (Some 0%Z) (Some 9216%Z) 5%Z]) [("x", mkpm DI8 true (Some 11%Z) None None)] [] 77%Z.
+
+Ltac col_tac := split; [discriminate | split; [discriminate | left; eexists; vm_compute; reflexivity]].
+Ltac axis_tac := constructor; [discriminate | reflexivity | eexists; split; [vm_compute; reflexivity | first [left; reflexivity | right; reflexivity]]
+                               | repeat constructor; cbn; lia].
+
+Lemma ex_mdg_values : dom_values false ex_mdg.
+Proof. constructor.
+  - repeat constructor; cbn; lia.
+  - reflexivity.
+  - reflexivity.
+  - intros e He. cbn in He. destruct He as [<-|[]]; cbn; auto.
+  - intros name Hin. vm_compute in Hin. destruct Hin as [<-|[<-|[<-|[]]]]; col_tac.
+  - intros name Hin. vm_compute in Hin. destruct Hin as [<-|[]]; col_tac.
+Qed.
+
+Lemma ex_mdg_args : args_dom ex_mdg (Some ex_mdc) (Some [("t", 9%Z); ("x", 4%Z)]).
+Proof. constructor.
+  - repeat constructor; cbn; intuition discriminate.
+  - intros c k0 Hc Hk. inversion Hc; subst c. cbn in Hk. destruct Hk as [<-|[]]. vm_compute. auto.
+  - intros c k0 Hc Hk. inversion Hc; subst c. destruct Hk.
+  - intros axs ax Hax Hin. inversion Hax; subst axs. destruct Hin as [<-|[<-|[]]]; axis_tac.
+Qed.
+
+Example C03_md_nonvacuous :
+  dom_values false ex_mdg /\ args_dom ex_mdg (Some ex_mdc) (Some [("t", 9%Z); ("x", 4%Z)]) /\
+  match run (api_write KObj (nx_write_md KObj false ex_mdg (Some ex_mdc) (Some [("t", 9%Z); ("x", 4%Z)]) 0)) None with
+  | (Some post, Ok tt) =>
+      match read_to_memory KObj (Some post) true None None with
+      | Ok mg => md_directed (g_md mg) = false /\ md_tok (g_md mg) = 77%Z /\
+                 md_axes (g_md mg) = Some [mkax "t" (Some 3072%Z) (Some 7168%Z) 9%Z; mkax "x" (Some (-2560)%Z) (Some 1024%Z) 4%Z] /\
+                 alookup "x" (md_nprops (g_md mg)) = Some (mkpm DF64 false (Some 11%Z) None None) /\
+                 nx_construct mg
+                 = Ok (mkcg false [(1%Z, [("x", CScalar SFloat 1024); ("t", CScalar SInt 3); ("b", CScalar SBool 1)]);
+                                   (9223372036854775813%Z, [("x", CScalar SFloat (-2560)); ("t", CScalar SInt 7)])]
+                                  [((9223372036854775813%Z, 1%Z), [("w", CScalar SFloat 1536)])])
+      | Err _ => False
+      end
+  | _ => False
+  end.
+Proof. split; [exact ex_mdg_values|]. split; [exact ex_mdg_args|]. vm_compute. repeat split. Qed.
+
+(* a networkx graph spatial-graph can read: float axes x, y, an int attribute, one edge with a float attribute; all nine pairs:
+   the three readers give the same canonical graph for the networkx graph, for the rustworkx graph (indices 0, 2 mapped to ids 7, 3)
+   and for the spatial graph of C03_sg_nonvacuous *)
+Definition ex_xg : dgraph :=
+  mkdg [(7%Z, [("x", PFloat 1024); ("y", PFloat 2048); ("a", PInt 7)]); (3%Z, [("x", PFloat 512); ("y", PFloat (-512)); ("a", PInt 8)])]
+       [((7%Z, 3%Z), [("w", PFloat 1536)])].
+Definition ex_xr : dgraph :=
+  mkdg [(0%Z, [("x", PFloat 1024); ("y", PFloat 2048); ("a", PInt 7)]); (2%Z, [("x", PFloat 512); ("y", PFloat (-512)); ("a", PInt 8)])]
+       [((0%Z, 2%Z), [("w", PFloat 1536)])].
+Definition ex_xaxes : option (list (string * Z)) := Some [("x", 0%Z); ("y", 0%Z)].
+Definition ex_xcg : cgraph :=
+  mkcg true [(7%Z, [("x", CScalar SFloat 1024); ("y", CScalar SFloat 2048); ("a", CScalar SInt 7)]);
+             (3%Z, [("x", CScalar SFloat 512); ("y", CScalar SFloat (-512)); ("a", CScalar SInt 8)])]
+            [((7%Z, 3%Z), [("w", CScalar SFloat 1536)])].
+
+Ltac sgcol_tac := split; [reflexivity | eexists; split; [vm_compute; reflexivity | reflexivity]].
+
+Lemma ex_xg_dom : src_dom (SrcNx true ex_xg None ex_xaxes) /\ rdr_dom (SrcNx true ex_xg None ex_xaxes) (RdrSg "position").
+Proof. split.
+  - split.
+    + constructor.
+      * repeat constructor; cbn; lia.
+      * reflexivity.
+      * reflexivity.
+      * intros e He. cbn in He. destruct He as [<-|[]]; cbn; auto.
+      * intros name Hin. vm_compute in Hin. destruct Hin as [<-|[<-|[<-|[]]]]; col_tac.
+      * intros name Hin. vm_compute in Hin. destruct Hin as [<-|[]]; col_tac.
+    + constructor.
+      * repeat constructor; cbn; intuition discriminate.
+      * intros c k0 Hc. discriminate.
+      * intros c k0 Hc. discriminate.
+      * intros axs ax Hax Hin. inversion Hax; subst axs. destruct Hin as [<-|[<-|[]]]; axis_tac.
+  - cbn [rdr_dom]. constructor.
+    + eexists. exists DF64. split; [reflexivity|]. split; [discriminate|]. split; [repeat constructor; cbn; intuition discriminate|].
+      intros ax [<-|[<-|[]]]; vm_compute; reflexivity.
+    + intros name Hin. vm_compute in Hin. destruct Hin as [<-|[<-|[<-|[]]]]; sgcol_tac.
+    + intros name Hin. vm_compute in Hin. destruct Hin as [<-|[]]; sgcol_tac.
+    + vm_compute. intuition discriminate.
+Qed.
+
+Example C03_cross_nonvacuous :
+  (src_dom (SrcNx true ex_xg None ex_xaxes) /\ rdr_dom (SrcNx true ex_xg None ex_xaxes) (RdrSg "position")) /\
+  (exists ids es P, sgc_dom ex_sg ["x"; "y"] ids es P) /\ ~ In "position" (sg_nnames ex_sg ["x"; "y"]) /\
+  rx_target (Some [(0%Z, 7%Z); (2%Z, 3%Z)]) ex_xr = Ok ex_xg /\
+  forallb (fun r => match cross (SrcNx true ex_xg None ex_xaxes) r 0 0, cross (SrcRx true ex_xr (Some [(0%Z, 7%Z); (2%Z, 3%Z)]) None ex_xaxes) r 0 0 with
+                    | Ok a, Ok b => Corr.C03.cgraph_eqb a ex_xcg && Corr.C03.cgraph_eqb b ex_xcg
+                    | _, _ => false
+                    end) [RdrNx; RdrRx; RdrSg "position"] = true /\
+  forallb (fun r => match cross (SrcSg ex_sg ["x"; "y"]) r 0 0 with
+                    | Ok a => Corr.C03.cgraph_eqb a (mkcg true [(5%Z, [("a", CScalar SInt 7); ("x", CScalar SFloat 1024); ("y", CScalar SFloat 2048)]);
+                                                                 (3%Z, [("a", CScalar SInt 8); ("x", CScalar SFloat 512); ("y", CScalar SFloat (-512))])]
+                                                                [((5%Z, 3%Z), [("w", CScalar SFloat 1536)])])
+                    | _ => false
+                    end) [RdrNx; RdrRx; RdrSg "position"] = true.
+Proof.
+  split; [exact ex_xg_dom|]. split; [exists [5; 3]%Z, [(5, 3)]%Z, ex_pos; exact (proj1 C03_sg_nonvacuous)|].
+  split; [vm_compute; intuition discriminate|]. split; [reflexivity|]. split; vm_compute; reflexivity.
+Qed.
+
+(* ---- the axis lists behind the tokens: the reduced helpers of BackendsMd.v against the full pydantic model (Meta.v, tied in C07 / C10) ----
+   When update_metadata_axes succeeds on the caller's FULL object, the reduced upd_axes succeeds on its abstraction (any interning I) with,
+   for axis k, the token of (type_k, unit_k, scale_k, scaled_unit_k, offset_k) of the axis that axes_from_lists builds from entry k of
+   every list (C10_axes_from_lists) and no min / max, and gives the abstraction of the full result.  Likewise create_or_update_metadata. *)
+From Geff Require BackendsMdBridge.
+Theorem C03_axis_lists_refine : forall I m ls m', Meta.update_metadata_axes m ls = Ok m' ->
+  exists l, Meta.axes_from_lists (BackendsMdBridge.no_roi ls) = Ok l /\
+            upd_axes (MetaBridge.abs I m) (map (fun a => (Meta.ax_name a, BackendsMdBridge.axis_tok I a)) l) = Ok (MetaBridge.abs I m').
+Proof. exact BackendsMdBridge.upd_axes_refines. Qed.
+Print Assumptions C03_axis_lists_refine.
+
+Theorem C03_cu_metadata_refines : forall I gv m0 d m2 mdtok,
+  Meta.create_or_update_metadata gv (Some m0) (Meta.JBool d) Meta.JNull = Ok m2 ->
+  Meta.md_version m2 = Meta.md_version m0 ->
+  MetaBridge.abs I m2 = cu_metadata (Some (MetaBridge.abs I m0)) d mdtok.
+Proof. exact BackendsMdBridge.cu_metadata_refines. Qed.
+Print Assumptions C03_cu_metadata_refines.
